@@ -91,7 +91,7 @@ class RotatorProfile(HeapProfile):
             "lattice": rng.random() < 0.3,
             "p_bad": rng.choice([0.0, 0.1, 0.2]),
             "small": rng.random() < 0.12,
-            "bign": rng.random() < 0.06,
+            "bign": rng.random() < 0.09,
         }
 
     def gen_op(self, rng, st):
